@@ -1,4 +1,5 @@
 import SpVerif.Model.Bounds
+import SpVerif.Lemmas.IndexTotal
 /-!
 # C13 — bounds and total_bounds are the tight extents of the geometry
 
@@ -144,6 +145,23 @@ theorem C13_row_inside_total (xs ys zs : List Coord) (lo hi : Int) (h : axisRang
     cases axisRange zs with
     | none => exact ⟨min c lo, max d hi, rfl, by omega, by omega⟩
     | some z => obtain ⟨a, b⟩ := z; exact ⟨min (min c lo) a, max (max d hi) b, rfl, by omega, by omega⟩
+
+/-- **the spatial index reports the total bounds** (`HilbertRtree.total_bounds` as coded after D41: per column over all rows,
+NaN ignored): it equals the bounds of all vertices together, whatever rows are undefined on one axis or on both -/
+theorem C13_index_total_bounds (els : List (List (Coord × Coord))) :
+    indexTotal (els.map totalBounds) = totalBounds els.flatten :=
+  C13_fold_of_rows els
+
+/-- the root box of the tree (the union of the rows that are *in* the tree) is that total only when no row is undefined on one axis
+alone - which is why the root box cannot stand in for the total bounds (D41) -/
+theorem C13_root_box_without_half_defined_rows (rows : List Row) (h : ∀ r ∈ rows, r.defined = true ∨ r = Row.empty) :
+    rootBox rows = indexTotal rows :=
+  rootBox_gen rows h Row.empty
+
+/-! the hypothesis is needed (the input of D41): an element with x undefined and y in 5..7, next to the box (1,1)-(2,2) -/
+example : rootBox [⟨none, some (5, 7)⟩, ⟨some (1, 2), some (1, 2)⟩] = ⟨some (1, 2), some (1, 2)⟩ ∧
+    indexTotal [⟨none, some (5, 7)⟩, ⟨some (1, 2), some (1, 2)⟩] = ⟨some (1, 2), some (1, 7)⟩ := by decide
+example : ∀ r ∈ [(⟨none, none⟩ : Row), ⟨some (1, 2), some (1, 2)⟩], r.defined = true ∨ r = Row.empty := by decide
 
 /-! non-vacuity: a line with a NaN and an infinite coordinate -/
 example : totalBounds [(.fin 1, .fin 2), (.nan, .fin 4), (.fin 5, .ninf)] = ⟨some (1, 5), some (2, 4)⟩ := by decide
